@@ -8,3 +8,35 @@ type ClassNode struct {
 }
 
 var ClassInheritanceMap = make(map[ClassNode][]ClassNode)
+
+// IsInheritanceCycle reports whether adding parentNode as a parent of classNode
+// would make classNode its own ancestor.
+func IsInheritanceCycle(classNode ClassNode, parentNode ClassNode) bool {
+	target := ClassNode{Frame: classNode.Frame, Class: classNode.Class}
+	visited := make(map[ClassNode]bool)
+
+	var walk func(node ClassNode) bool
+	walk = func(node ClassNode) bool {
+		node = ClassNode{Frame: node.Frame, Class: node.Class}
+
+		if node == target {
+			return true
+		}
+
+		if visited[node] {
+			return false
+		}
+
+		visited[node] = true
+
+		for _, nextNode := range ClassInheritanceMap[node] {
+			if walk(nextNode) {
+				return true
+			}
+		}
+
+		return false
+	}
+
+	return walk(parentNode)
+}
